@@ -76,7 +76,8 @@ deriving DecidableEq, Inhabited
 
 structure Net where
   n : Nat
-  maxHops : Nat
+  /-- every agent has its own routing.max_hops (0 = no limit) -/
+  maxHops : Node → Nat
   nodes : Node → NodeSt
   links : List (Node × Node)
   flight : List Flight
@@ -414,7 +415,7 @@ def staleKeep (self : Node) (clock age : Nat) (e : Entry) : Bool :=
 
 /-- Effect of `b` handling advertisement `m` received from `a`. -/
 def process (s : Net) (a b : Node) (m : Adv) : Net × Res :=
-  let (st', outs, r) := handle s.maxHops (peersOf s b) b a s.clock m (s.nodes b)
+  let (st', outs, r) := handle (s.maxHops b) (peersOf s b) b a s.clock m (s.nodes b)
   ({ setNode s b st' with flight := s.flight ++ outs.map (fun (p, f) => { src := b, dst := p, adv := f }) }, r)
 
 def tick (s : Net) : Net := { s with clock := s.clock + 1 }
@@ -444,7 +445,7 @@ def stepCore (s : Net) : Op → Net
   | .replay a b ord =>
     if a < s.n ∧ b < s.n ∧ linked s a b then
       let st := s.nodes a
-      let advs := replayAdvs (hopCap s.maxHops) a b st ord
+      let advs := replayAdvs (hopCap (s.maxHops a)) a b st ord
       { setNode s a { st with seq := st.seq + advs.length } with
         flight := s.flight ++ advs.map (fun m => { src := a, dst := b, adv := m }) }
     else s
@@ -510,8 +511,12 @@ def addLocal (self : Node) (st : NodeSt) (r : RAd) : NodeSt :=
 
 def initNode (self : Node) (locals : List RAd) : NodeSt := locals.foldl (addLocal self) {}
 
-def init (n maxHops : Nat) (locals : Node → List RAd) : Net :=
+/-- Initial state with a hop limit per agent. -/
+def initH (n : Nat) (maxHops : Node → Nat) (locals : Node → List RAd) : Net :=
   { n := n, maxHops := maxHops, nodes := fun x => initNode x (locals x), links := [], flight := [], clock := 0 }
+
+/-- Initial state with one hop limit for the whole mesh. -/
+def init (n maxHops : Nat) (locals : Node → List RAd) : Net := initH n (fun _ => maxHops) locals
 
 /-! ### following a recorded path (Agent.handleStreamOpen) -/
 
